@@ -97,10 +97,14 @@ class ElemKind(object):
         return "(vars=%d,xnor=%d)" % (val[self.vi], val[self.xi])
 
 
-def window_op(chk, rule, facts, C, bd, label, lens, reduce_, op, WN=2, irredundant=False, sample=False):
+def window_op(chk, rule, facts, C, bd, label, lens, reduce_, op, WN=2, irredundant=False, sample=False, fixed=None):
     """lens: operand lengths, one per container argument of bd.  reduce_: 'or' | 'xor' (what the container denotes).
-    op: 'or' | 'and' | 'xor' | 'not'."""
+    op: 'or' | 'and' | 'xor' | 'not'.  fixed: per operand, a list of concrete term values placed before the symbolic
+    terms (large operands: code paths that only run above a size threshold)."""
+    fixed = fixed or [[] for _ in lens]
     key = "%s on real terms %s, window of %d variables" % (label, tuple(lens), WN)
+    if any(fixed):
+        key += ", plus %s fixed terms" % "+".join(str(len(f_)) for f_ in fixed)
     ncases = 0
     try:
         E = ElemKind(facts, C.elem)
@@ -114,14 +118,18 @@ def window_op(chk, rule, facts, C, bd, label, lens, reduce_, op, WN=2, irredunda
         atoms = [a for nm in names for a in E.atoms(nm, WN)]
         canon = tuple(c for nm in names for c in E.canon(nm, WN))
 
-        def cont(ns):
+        def conc(val):
+            return Agg("adt", E.adt, 0, [wconst(1 if t_["k"] == "bool" else t_["w"], v_) for t_, v_ in zip(E.fts, val)])
+
+        def cont(ns, fx):
             cell = new_cell()
-            st.mem[cell] = Arr([E.mk(x, WN) for x in ns])
+            elems = [conc(v_) for v_ in fx] + [E.mk(x, WN) for x in ns]
+            st.mem[cell] = Arr(elems)
             f = [None, None]
             f[C.nv] = wconst(64, WN)
-            f[C.cv] = Ptr(cell, (), (0, len(ns)), "vec")
+            f[C.cv] = Ptr(cell, (), (0, len(elems)), "vec")
             return Agg("adt", C.adt, 0, f)
-        args = [arg_for(ty, cont(g), st) for ty, g in zip(bd["sig"]["inputs"], groups)]
+        args = [arg_for(ty, cont(g, fx), st) for ty, g, fx in zip(bd["sig"]["inputs"], groups, fixed)]
         it.space = Space(atoms, canon)
         with it.space:
             outs = it.call_body(bd, args, st, {}, pc=canon)
@@ -144,10 +152,10 @@ def window_op(chk, rule, facts, C, bd, label, lens, reduce_, op, WN=2, irredunda
             asg = {B.ATOMS.get(k_): v_ for k_, v_ in named.items()}
             enabled = [outs[x_] for x_ in owner.get(it.space.index(named), [])]
             ops_, pos_ = [], 0
-            for g in groups:
-                ops_.append(choice[pos_:pos_ + len(g)])
+            for g, fx in zip(groups, fixed):
+                ops_.append(tuple(fx) + tuple(choice[pos_:pos_ + len(g)]))
                 pos_ += len(g)
-            desc = ", ".join("%s = [%s]" % ("abc"[k_], " ".join(E.show(x) for x in o_)) for k_, o_ in enumerate(ops_))
+            desc = ", ".join("%s = [%s]" % ("abc"[k_], " ".join(E.show(x) for x in (o_ if len(o_) <= 4 else o_[-2:])) + (" after %d fixed terms" % (len(o_) - 2) if len(o_) > 4 else "")) for k_, o_ in enumerate(ops_))
             if len(enabled) != 1:
                 v, d = UNDECIDED, "%d paths enabled for %s" % (len(enabled), desc)
                 break
@@ -325,6 +333,87 @@ def to_lut_rules(chk, rule, facts, C, reduce_, tier):
         for n, varset, L in plans:
             window_to_lut(chk, rule, facts, C, bd, label, n, varset, L, reduce_, lambda it, st, v: KD.words(it, st, v))
     return found
+
+
+def window_value(chk, rule, facts, C, L, reduce_, WN=2):
+    """value(m) of a container of L real terms over a window of WN variables, with a symbolic assignment m: equals the
+    OR / XOR of the term denotations for every choice of terms (in any order - the list is not assumed sorted) and m."""
+    b = C.methods.get("value")
+    short = C.adt.split("::")[-1]
+    key = "%s::value on %d real term(s), window of %d variables" % (short, L, WN)
+    if b is None:
+        chk.refuted(rule, "anchor-missing: %s::value" % short, "")
+        return
+    try:
+        E = ElemKind(facts, C.elem)
+        names = ["t%d" % j for j in range(L)]
+        atoms = [a for nm in names for a in E.atoms(nm, WN)] + ["m[%d]" % i_ for i_ in range(WN)]
+        canon = tuple(c for nm in names for c in E.canon(nm, WN))
+        space = Space(atoms, canon)
+        it = Interp(facts, max_paths=8192, max_steps=50000000)
+        it.prune = True
+        it.cmp_split = True
+        it.space = space
+        st = State()
+        cell = new_cell()
+        st.mem[cell] = Arr([E.mk(x, WN) for x in names])
+        f = [None, None]
+        f[C.nv] = wconst(64, WN)
+        f[C.cv] = Ptr(cell, (), (0, L), "vec")
+        m = W(64, bits=[B.atom("m[%d]" % i_) if i_ < WN else ZERO for i_ in range(64)])
+        with space:
+            outs = it.call_body(b, [arg_for(b["sig"]["inputs"][0], Agg("adt", C.adt, 0, f), st), m], st, {}, pc=canon)
+        full = space.full
+
+        def am(name):
+            return space.var[B.ATOMS.get(name)]
+        want = 0
+        for nm in names:
+            if E.kind == "cube":
+                t_m = full
+                for i_ in range(WN):
+                    mi = am("m[%d]" % i_)
+                    # positive literal needs m_i, negative literal needs not m_i
+                    t_m &= (full ^ am("%s.f0[%d]" % (nm, i_))) | mi
+                    t_m &= (full ^ am("%s.f1[%d]" % (nm, i_))) | (full ^ mi)
+            else:
+                t_m = am("%s.f%d" % (nm, E.xi))
+                for i_ in range(WN):
+                    t_m ^= am("%s.f%d[%d]" % (nm, E.vi, i_)) & am("m[%d]" % i_)
+            want = (want | t_m) if reduce_ == "or" else (want ^ t_m)
+        v, d = PROVED, ""
+        covered = 0
+        for o in outs:
+            pm = space.pc_mask(o.pc)
+            if pm is None:
+                raise Undecided("path condition with top")
+            if not pm:
+                continue
+            if o.kind != "return":
+                v, d = REFUTED, "panics (%s)" % o.info.get("msg")
+                break
+            covered |= pm
+            got = space.mask(o.value)
+            if got is None:
+                raise Undecided("result not exact")
+            diff = (got ^ want) & pm
+            if diff:
+                r_ = (diff & -diff).bit_length() - 1
+                named = {a_: (r_ >> j) & 1 for j, a_ in enumerate(space.names)}
+                terms = []
+                for nm in names:
+                    val = [None, None]
+                    for k, t_ in enumerate(E.fts):
+                        val[k] = named["%s.f%d" % (nm, k)] if t_["k"] == "bool" else sum(named["%s.f%d[%d]" % (nm, k, i_)] << i_ for i_ in range(WN))
+                    terms.append(E.show(tuple(val)))
+                mv = sum(named["m[%d]" % i_] << i_ for i_ in range(WN))
+                v, d = REFUTED, "for the terms [%s] value(%d) returns %d, the %s of the terms is %d" % (" ".join(terms), mv, (got >> r_) & 1, reduce_.upper(), (want >> r_) & 1)
+                break
+        if v == PROVED and covered != space.base:
+            v, d = UNDECIDED, "paths do not cover every choice"
+    except Undecided as ex:
+        v, d = UNDECIDED, ex.cause
+    chk.add(rule, key, v, d, where=where_of(b))
 
 
 def op_forms(facts, trait, adt):
